@@ -803,3 +803,57 @@ func TestC06RealDeadliner(t *testing.T) {
 		})
 	})
 }
+
+// TestC06ExpiryBurst: the duty store drains the deadliner's expiry channel only while it stores. After an
+// idle period in which more duties expired than that channel buffers, the next store and the queries for
+// its keys must still complete ("returns promptly once a successful store has provided its key").
+func TestC06ExpiryBurst(t *testing.T) {
+	vstat.Rule("C06", "expiry burst: production deadliner + duty store on virtual time; 1..30 duties stored and left to expire during an idle period with no store (more than the 10 the expiry channel buffers in most cases), then a store of a fresh duty and a query for it must both complete; non-trivial = more than 10 expiries piled up")
+	rapid.Check(t, func(rt *rapid.T) {
+		rapid.SyncTest(rt, func(rt *rapid.T) {
+			ctx, cancel := context.WithCancel(context.Background())
+			defer func() { cancel(); synctest.Wait() }()
+			base := time.Now()
+			deadlineOf := func(d core.Duty) (time.Time, bool) { return base.Add(time.Duration(d.Slot) * time.Second), true }
+			db := dutydb.NewMemDB(core.NewDeadliner(ctx, "verif", deadlineOf))
+			n := rapid.IntRange(1, 30).Draw(rt, "expiring")
+			mkSet := func(slot uint64) core.UnsignedDataSet {
+				d := attData(slot, 1, 'a')
+				return core.UnsignedDataSet{pk(1): core.AttestationData{Data: d, Duty: eth2v1.AttesterDuty{PubKey: eth2pk(pk(1)), Slot: eth2p0.Slot(slot), ValidatorIndex: 1, CommitteeIndex: 1, CommitteeLength: 8, CommitteesAtSlot: 3}}}
+			}
+			for i := 0; i < n; i++ {
+				slot := uint64(10 + i)
+				if err := db.Store(ctx, core.Duty{Slot: slot, Type: core.DutyAttester}, mkSet(slot)); err != nil {
+					rt.Fatalf("store before the deadline refused: %v", err)
+				}
+			}
+			// idle: every deadline passes, nobody stores
+			time.Sleep(time.Duration(10+n+rapid.IntRange(1, 20).Draw(rt, "idleExtra")) * time.Second)
+			synctest.Wait()
+			fresh := uint64(1000)
+			stored := make(chan error, 1)
+			go func() { stored <- db.Store(ctx, core.Duty{Slot: fresh, Type: core.DutyAttester}, mkSet(fresh)) }()
+			synctest.Wait()
+			select {
+			case err := <-stored:
+				if err != nil {
+					rt.Fatalf("store of a fresh duty after %d expiries failed: %v", n, err)
+				}
+			default:
+				rt.Fatalf("STORE HANGS: after %d duties expired during an idle period the next Store does not return (everything is blocked)", n)
+			}
+			got := make(chan error, 1)
+			go func() { _, err := db.AwaitAttestation(ctx, fresh, 1); got <- err }()
+			synctest.Wait()
+			select {
+			case err := <-got:
+				if err != nil {
+					rt.Fatalf("query for the stored key failed: %v", err)
+				}
+			default:
+				rt.Fatalf("BLOCKED: the query for a key a successful store provided does not return after %d expiries piled up", n)
+			}
+			vstat.Case(fmt.Sprintf("burst/%d", n), n > 10, "expiry_burst", cls("expiry_burst_over_buffer", n > 10))
+		})
+	})
+}
